@@ -160,7 +160,7 @@ def explore_case(res, fn, tier, max_paths=200000, budget_s=None, on_path=None, q
     """Run core.explore and fold the outcome into a CaseResult."""
     deadline = None if budget_s is None else time.time() + budget_s
     stats, results, cexs, complete = core.explore(
-        fn, max_paths=max_paths, deadline=deadline, on_path=on_path, query_timeout_ms=query_timeout_ms
+        fn, max_paths=max_paths, deadline=deadline, on_path=on_path, query_timeout_ms=query_timeout_ms, max_cex=200
     )
     if res.stats is None:
         res.stats = stats
